@@ -79,6 +79,22 @@ pub struct Scn {
     pub mismatch: bool,
     pub r_seed: u64,
     pub sched: Sched,
+    /// the adaptive adversary against the batching challenge (see `run_joint`)
+    #[serde(default)]
+    pub joint: Option<Joint>,
+}
+
+/// Two copies of one honest proof whose final opening elements are shifted by D and by
+/// -c D, where c is the batching coefficient the adversary predicts from everything but the
+/// last member. Each copy is invalid alone; the pair cancels in the batched check exactly
+/// when the coefficient does not depend on the last member.
+#[derive(Clone, Debug, Serialize, Deserialize, PartialEq)]
+pub struct Joint {
+    pub rel: usize,
+    pub proof: usize,
+    pub d: Fe,
+    /// an honest proof of the other relation placed before the pair
+    pub prefix: bool,
 }
 
 fn fixtures_of(rel: usize) -> std::sync::Arc<StdFixture> {
@@ -160,7 +176,7 @@ impl Check for C15 {
     fn meta(&self) -> Meta {
         Meta {
             level: "exploration",
-            rule: "one run = one batch of 0..6 deliveries over two standard-library relations (Poseidon, arithmetic; different k), each delivery an honest proof from a pool or one faulted by a proof bit flip, a wrong public input, a wrong key, an extra or a missing public input, bytes appended to the proof (batch_verify only), in a drawn order with repetitions, delivered to one of: zk_stdlib::batch_verify, Guard::batch_verify, DualMSM scale/add_msm/check with drawn scalars, off-circuit Accumulator from_dual_msm/accumulate/collapse/check with the union of both keys' fixed-base maps; also empty and length-mismatched batches. Oracle: the batch verdict equals the conjunction of the single verifier's verdicts on the members; empty / mismatched batches return a value. distinct_nontrivial counts distinct (entry, member list) digests containing at least one fault or a repetition",
+            rule: "one run = one batch of 0..6 deliveries over two standard-library relations (Poseidon, arithmetic; different k), each delivery an honest proof from a pool or one faulted by a proof bit flip, a wrong public input, a wrong key, an extra or a missing public input, bytes appended to the proof (batch_verify only), in a drawn order with repetitions, delivered to one of: zk_stdlib::batch_verify, Guard::batch_verify, DualMSM scale/add_msm/check with drawn scalars, off-circuit Accumulator from_dual_msm/accumulate/collapse/check with the union of both keys' fixed-base maps; also empty and length-mismatched batches. Every 10th run is the adaptive adversary against the batching challenge: two copies of one honest proof with the final opening element moved by D and by -c D, c predicted from the members before the last, must be refused. Oracle: the batch verdict equals the conjunction of the single verifier's verdicts on the members; empty / mismatched batches return a value. distinct_nontrivial counts distinct (entry, member list) digests containing at least one fault or a repetition",
             assumptions: vec![
                 "a random linear combination hiding an invalid member has probability <= 2^-120 and is ignored",
                 "Accumulator::accumulate is exercised on >= 1 accumulators (its empty case is not part of the batch-verification contract)",
@@ -221,6 +237,17 @@ impl Check for C15 {
             members[k] = members[j].clone();
         }
         rng.shuffle(&mut members);
+        if idx % 10 == 9 {
+            let scn = Scn {
+                members: vec![],
+                entry: Entry::Stdlib,
+                mismatch: false,
+                r_seed: rng.u64(),
+                sched: Sched::draw(rng, tier == Tier::Thorough),
+                joint: Some(Joint { rel: rng.usize(2), proof: rng.usize(4), d: Fe(uniform_fq(rng)), prefix: rng.chance(1, 2) }),
+            };
+            return serde_json::to_value(scn).unwrap();
+        }
         let entry = *rng.pick(&[Entry::Stdlib, Entry::Stdlib, Entry::Guards, Entry::DualMsm, Entry::Accumulator]);
         if entry != Entry::Stdlib {
             // the other entries receive prepared guards, not proof bytes
@@ -236,6 +263,7 @@ impl Check for C15 {
             mismatch: rng.chance(1, 10),
             r_seed: rng.u64(),
             sched: Sched::draw(rng, tier == Tier::Thorough),
+            joint: None,
         };
         serde_json::to_value(scn).unwrap()
     }
@@ -261,7 +289,88 @@ impl Check for C15 {
     }
 }
 
+/// The proof with its last element (the final opening element, a compressed G1 point)
+/// moved by `by` times the generator; None when the tail does not decode.
+fn shift_last_point(proof: &[u8], by: Fq) -> Option<Vec<u8>> {
+    use group::{Curve, GroupEncoding};
+    let n = proof.len();
+    if n < 48 {
+        return None;
+    }
+    let mut repr = <midnight_curves::G1Affine as GroupEncoding>::Repr::default();
+    repr.as_mut().copy_from_slice(&proof[n - 48..]);
+    let p: midnight_curves::G1Affine = Option::from(midnight_curves::G1Affine::from_bytes(&repr))?;
+    let q = (G1Projective::from(p) + G1Projective::generator() * by).to_affine();
+    let mut out = proof[..n - 48].to_vec();
+    out.extend_from_slice(q.to_bytes().as_ref());
+    Some(out)
+}
+
+/// What batch_verify absorbs for one member: the challenge squeezed from the member's
+/// transcript after the whole proof has been read.
+fn summary_of(b: &Built) -> Option<Fq> {
+    let mut t = CircuitTranscript::<H>::init_from_bytes(&b.proof);
+    prepare::<Fq, KZGCommitmentScheme<Bls12>, _>(b.vk.vk(), &[&[G1Projective::identity()]], &[&[&b.pi]], &mut t).ok()?;
+    Some(t.squeeze_challenge())
+}
+
+fn run_joint(j: &Joint, s: &Scn, st: &mut Stats) -> Verdict {
+    let vp = fixtures::srs(1).verifier_params();
+    let honest = rayon::sim::isolated(1, || build_member(&Member { rel: j.rel, proof: j.proof, fault: MFault::None }));
+    let Some(p0) = shift_last_point(&honest.proof, j.d.0) else {
+        st.inc("joint.tail_not_a_point");
+        return Verdict::Pass;
+    };
+    let first = Built { vk: honest.vk.clone(), pi: honest.pi.clone(), proof: p0 };
+    let mut batch: Vec<Built> = vec![];
+    if j.prefix {
+        batch.push(rayon::sim::isolated(1, || build_member(&Member { rel: 1 - j.rel, proof: j.proof, fault: MFault::None })));
+    }
+    batch.push(first);
+    // the coefficient as an implementation would compute it that does not wait for the last member
+    let c = rayon::sim::isolated(1, || -> Option<Fq> {
+        let mut rt = CircuitTranscript::<H>::init();
+        for b in &batch {
+            rt.common(&summary_of(b)?).ok()?;
+        }
+        Some(rt.squeeze_challenge())
+    });
+    let Some(c) = c else {
+        st.inc("joint.prepare_failed");
+        return Verdict::Pass;
+    };
+    let Some(p1) = shift_last_point(&honest.proof, -(c * j.d.0)) else { return Verdict::Pass };
+    batch.push(Built { vk: honest.vk.clone(), pi: honest.pi.clone(), proof: p1 });
+    st.fault("joint-compensating-pair");
+    st.nontrivial(prng::digest(serde_json::to_string(j).unwrap().as_bytes()));
+    let n = batch.len();
+    let alone: Vec<bool> = rayon::sim::isolated(1, || batch.iter().map(|b| single(b, &vp).0).collect());
+    if alone[n - 1] || alone[n - 2] {
+        return Verdict::Harness("a proof with a shifted opening element verifies on its own".into());
+    }
+    s.sched.enter();
+    let vks: Vec<MidnightVK> = batch.iter().map(|b| b.vk.clone()).collect();
+    let pis: Vec<Vec<Fq>> = batch.iter().map(|b| b.pi.clone()).collect();
+    let proofs: Vec<Vec<u8>> = batch.iter().map(|b| b.proof.clone()).collect();
+    st.events += n as u64;
+    match catch(|| midnight_zk_stdlib::batch_verify::<H>(&vp, &vks, &pis, &proofs)) {
+        Ok(Err(_)) => {
+            st.probe("joint_pair_rejected");
+            Verdict::Pass
+        }
+        Ok(Ok(())) => Verdict::Violation(Viol::new(
+            "ForgedBatchAccepted",
+            "ForgedBatchAccepted:batch_verify",
+            format!("batch_verify accepted {n} members of which the last two are copies of one honest proof with the final opening element moved by D and by -c D (c predicted from the members before the last; prefix {}): each of the two is rejected alone", j.prefix),
+        )),
+        Err(p) => Verdict::Violation(Viol::new("BatchCrash", format!("BatchCrash:batch_verify@{}", p.site_file()), format!("batch_verify panicked at {} on the compensating pair: {}", p.site(), p.msg))),
+    }
+}
+
 fn run(s: &Scn, st: &mut Stats) -> Verdict {
+    if let Some(j) = &s.joint {
+        return run_joint(j, s, st);
+    }
     let vp = fixtures::srs(1).verifier_params();
     let built: Vec<Built> = rayon::sim::isolated(1, || s.members.iter().map(build_member).collect());
     let n = built.len();
